@@ -1,4 +1,4 @@
 Require Import Model.Base Corr.Common Corr.Draw.
 Definition oracle (v : verdict) : bool := v_results_ok v && v_obs v && v_madctl v && v_writes v && v_confined v && v_no_anomaly v.
-Definition check (x : pcase * pout) : Z := code (corr_exact (fst x) (snd x)) (oracle (verdict_of x)).
+Definition check (x : pcase * pout) : Z := code (corr_ops (fst x) (snd x)) (oracle (verdict_of x)).
 Definition model_out := Corr.Draw.model_out.
